@@ -203,3 +203,91 @@ func (db *DB) VerifDump(w io.Writer) {
 
 // VerifIsMerging exposes the merging flag.
 func (db *DB) VerifIsMerging() bool { return db.isMerging }
+
+// VerifHint builds a hint for a raw BPTree insertion.
+func VerifHint(key []byte, flag uint16) *Hint {
+	return &Hint{key: key, meta: &MetaData{Flag: flag, keySize: uint32(len(key))}}
+}
+
+// VerifRecordKey returns the key stored in a record's hint.
+func VerifRecordKey(r *Record) []byte {
+	if r == nil || r.H == nil {
+		return nil
+	}
+	return r.H.key
+}
+
+// VerifTreeCheck checks the structural invariants of a B+ tree: keys sorted inside every node,
+// separators bracket their children, parent pointers, leaf chain complete and sorted.
+func VerifTreeCheck(t *BPTree) string {
+	if t == nil || t.root == nil {
+		return ""
+	}
+	var leaves []*Node
+	var walk func(n *Node, lo, hi []byte, depth int) string
+	leafDepth := -1
+	walk = func(n *Node, lo, hi []byte, depth int) string {
+		if n == nil {
+			return "nil child"
+		}
+		if n.KeysNum < 0 || n.KeysNum > order-1 {
+			return fmt.Sprintf("node with %d keys", n.KeysNum)
+		}
+		for i := 0; i < n.KeysNum; i++ {
+			if n.Keys[i] == nil {
+				return fmt.Sprintf("nil key at position %d of a node with %d keys", i, n.KeysNum)
+			}
+			if i > 0 && compare(n.Keys[i-1], n.Keys[i]) >= 0 {
+				return fmt.Sprintf("keys not ascending in a node: %q >= %q", n.Keys[i-1], n.Keys[i])
+			}
+			if lo != nil && compare(n.Keys[i], lo) < 0 {
+				return fmt.Sprintf("key %q below the separator %q of its subtree", n.Keys[i], lo)
+			}
+			if hi != nil && compare(n.Keys[i], hi) >= 0 {
+				return fmt.Sprintf("key %q not below the separator %q of its subtree", n.Keys[i], hi)
+			}
+		}
+		if n.isLeaf {
+			if leafDepth < 0 {
+				leafDepth = depth
+			} else if leafDepth != depth {
+				return "leaves at different depths"
+			}
+			leaves = append(leaves, n)
+			return ""
+		}
+		for i := 0; i <= n.KeysNum; i++ {
+			c, _ := n.pointers[i].(*Node)
+			if c == nil {
+				return fmt.Sprintf("inner node: child %d of %d is nil", i, n.KeysNum+1)
+			}
+			if c.parent != n {
+				return "child with a wrong parent pointer"
+			}
+			clo, chi := lo, hi
+			if i > 0 {
+				clo = n.Keys[i-1]
+			}
+			if i < n.KeysNum {
+				chi = n.Keys[i]
+			}
+			if msg := walk(c, clo, chi, depth+1); msg != "" {
+				return msg
+			}
+		}
+		return ""
+	}
+	if msg := walk(t.root, nil, nil, 0); msg != "" {
+		return msg
+	}
+	for i, l := range leaves {
+		next, _ := l.pointers[order-1].(*Node)
+		if i+1 < len(leaves) && next != leaves[i+1] {
+			return "leaf chain skips or reorders a leaf"
+		}
+		if i+1 == len(leaves) && next != nil {
+			return "last leaf has a successor"
+		}
+	}
+	return ""
+}
